@@ -82,55 +82,119 @@ def run(ctx, res):
     res.tables["C20.R2.paths"] = npaths
 
     # ---- R3 -----------------------------------------------------------------
+    # decided on the values that reach the call on each path (a table of (pointer, size) rows walked by a loop, locals,
+    # the arguments spelled out: all the same), one obligation per distinct (call, buffer value, length value)
     res.floor("C20.R3", 4)
+    callers = {}
     for f, n in lib_calls(prog, wf.name):
+        callers.setdefault((f.unit, f.name), f)
+    for f in callers.values():
         res.saw(f)
-        a = call_args(n)
-        ptr, ln = strip(a[1]), strip(a[2])
-        okp, how = _pair_ok(f, ptr, ln)
-        res.check(okp, "C20.R3", site(f, "%s(%s,%s)" % (wf.name, canon(ptr), canon(ln))), how,
-                  "length argument %s does not belong to buffer %s" % (canon(ln), canon(ptr)), f.loc(n))
+        seen = set()
+        evc = APE.run(prog, cg, f, bound=max(APE.BOUND, 3))
+        for p in evc.paths:
+            for e in p.events:
+                if e.kind != "call" or e.a != wf.name or len(e.b) < 3:
+                    continue
+                key = (e.node.get("oid", e.node["id"]), APE.vstr(e.b[1]), APE.vstr(e.b[2]))
+                if key in seen:
+                    continue
+                seen.add(key)
+                okp, how = _pair_value(prog, f, p, e)
+                res.check(okp, "C20.R3", site(f, "%s(%s,%s)" % (wf.name, strip_tags(key[1]), strip_tags(key[2]))), how,
+                          "length %s does not belong to buffer %s: %s" % (key[2], key[1], how), f.loc(e.node), p.describe(f))
 
 
-def _pair_ok(f, ptr, ln):
-    # sizeof the object pointed to
-    pobj = ptr
-    if pobj["k"] == "UnaryOperator" and pobj.get("op") == "&":
-        pobj = strip(pobj["kids"][0])
-    if ln["k"] == "UnaryExprOrTypeTraitExpr":
-        # sizeof(X): X must be the same object
-        ks = kids(ln)
-        # operand not emitted (unevaluated): compare by size of the object type
-        want = ln.get("val")
-        t = pobj.get("ct", pobj.get("t", ""))
-        import re
-        m = re.search(r"\[(\d+)\]", t)
-        size = int(m.group(1)) if m else {"uint32_t": 4, "unsigned int": 4, "uint64_t": 8, "unsigned long": 8}.get(t)
-        if size is not None and want == size:
-            return True, "sizeof of the object written (%d bytes)" % size
-        return False, "sizeof mismatch"
-    if ptr["k"] == "MemberExpr" and ln["k"] == "MemberExpr":
-        if ln["field"] in ("len_" + ptr["field"], ptr["field"] + "_len", "len" + ptr["field"]) and \
-                canon(ptr["kids"][0]) == canon(ln["kids"][0]):
-            return True, "field pair %s/%s of one object" % (ptr["field"], ln["field"])
-        return False, "fields of different objects"
-    if ln["k"] == "DeclRefExpr":
-        # length local defined by an encoder that wrote into the same buffer
-        for n in walk(f.body):
-            if n["k"] == "BinaryOperator" and n.get("op") == "=" and canon(n["kids"][0]) == canon(ln) and is_call(n["kids"][1]):
-                c = strip(n["kids"][1])
-                if call_args(c) and base_decl(call_args(c)[0]) == base_decl(ptr):
-                    return True, "length returned by %s which filled the same buffer" % c.get("callee")
+def _type_of_path(prog, f, path):
+    """Canonical type string of an access path (name, then ->field / .field / [index] steps) in function f, or None."""
+    import re
+    m = re.match(r"^([A-Za-z_]\w*)", path)
+    if not m:
+        return None
+    name, rest = m.group(1), path[m.end():]
+    t = None
+    for prm in f.params:
+        if prm["name"] == name:
+            t = prm.get("ct") or prm.get("t")
+    if t is None:
         for n in walk(f.body):
             if n["k"] == "DeclStmt":
                 for d in n["decls"]:
-                    if d["name"] == ln.get("name") and d.get("init") is not None and is_call(d["init"]):
-                        c = strip(d["init"])
-                        if call_args(c) and base_decl(call_args(c)[0]) == base_decl(ptr):
-                            return True, "length returned by %s which filled the same buffer" % c.get("callee")
-        # parameter pair (ptr param i, len param i+1)
-        if ln.get("dk") == "param" and ptr["k"] == "DeclRefExpr" and ptr.get("dk") == "param" and ln["idx"] == ptr["idx"] + 1:
-            return True, "parameter pair"
+                    if d["name"] == name:
+                        t = d.get("ct") or d.get("t")
+    while t is not None and rest:
+        m = re.match(r"^(->|\.)(\w+)", rest)
+        if m:
+            base = t.replace("const ", "").strip()
+            if m.group(1) == "->":
+                if not base.endswith("*"):
+                    return None
+                base = base[:-1].strip()
+            rn = re.match(r"^(?:struct|union)\s+(\w+)$", base)
+            rec = prog.record(rn.group(1), f.unit) if rn else None
+            if rec is None:
+                return None
+            fl = [x for x in rec["fields"] if x["name"] == m.group(2)]
+            t = (fl[0].get("ct") or fl[0].get("t")) if fl else None
+            rest = rest[m.end():]
+            continue
+        m = re.match(r"^\[[^\]]*\]", rest)
+        if m:
+            ma = re.match(r"^(.*?)\[\d*\]$", t.strip())
+            if ma:
+                t = ma.group(1).strip()
+            elif t.strip().endswith("*"):
+                t = t.strip()[:-1].strip()
+            else:
+                return None
+            rest = rest[m.end():]
+            continue
+        return None
+    return t
+
+
+def _sizeof(t):
+    import re
+    from mtblcheck.bits import tparse
+    if t is None:
+        return None
+    m = re.match(r"^(.*?)\[(\d+)\]$", t.strip())
+    if m:
+        s = _sizeof(m.group(1).strip())
+        return s * int(m.group(2)) if s is not None else None
+    ti = tparse(t.replace("const ", ""))
+    if ti and ti[0] == "int":
+        return ti[1] // 8
+    return None
+
+
+def _pair_value(prog, f, p, e):
+    import re
+    vp, vl = e.b[1], e.b[2]
+    sp, sl = APE.vstr(vp), APE.vstr(vl)
+    if vl[0] == "c":
+        # a constant length: the size of the object the pointer value designates
+        obj = strip_tags(sp)
+        if obj.startswith("&"):
+            size = _sizeof(_type_of_path(prog, f, obj[1:]))
+        else:
+            t = _type_of_path(prog, f, obj)
+            size = _sizeof(t) if t is not None and re.search(r"\[\d+\]$", t.strip()) else None
+        if size is not None and size == vl[1]:
+            return True, "constant length %d = size of the object %s" % (size, obj)
+        return False, "constant length %s but the object %s has size %s" % (vl[1], obj, size)
+    # the result of a call that was given the same buffer
+    for e2 in p.events:
+        if e2.kind == "call" and e2.c == vl and e2.b and e2.b[0] == vp:
+            return True, "length returned by %s, which filled the same buffer" % e2.a
+    a, b = strip_tags(sp), strip_tags(sl)
+    ma = re.match(r"^(.*(?:->|\.))(\w+)$", a)
+    mb = re.match(r"^(.*(?:->|\.))(\w+)$", b)
+    if ma and mb and ma.group(1) == mb.group(1) and mb.group(2) in ("len_" + ma.group(2), ma.group(2) + "_len", "len" + ma.group(2)):
+        return True, "field pair %s/%s of one object" % (ma.group(2), mb.group(2))
+    names = [prm["name"] for prm in f.params]
+    if a in names and b in names and names.index(b) == names.index(a) + 1:
+        return True, "parameter pair"
     return False, "unrecognised pairing"
 
 
@@ -223,13 +287,12 @@ def _check_path(res, wf, p):
         neg = ({k: -v for k, v in remaining[0].items()}, -remaining[1])
         done = False
         for (a, b), v in p.cons.items():
-            if v != frozenset((EQ,)):
-                continue
             try:
                 d = _sub(_lin(a), _lin(b))
             except Exception:
                 continue
-            if d == remaining or d == neg:
+            # remaining <= 0 (write(2) never reports more than it was asked for, so < 0 cannot happen)
+            if (d == remaining and v <= frozenset((EQ, LT))) or (d == neg and v <= frozenset((EQ, GT))):
                 done = True
         res.check(done, "C20.R2", site(wf, "return"),
                   "normal return only when the path implies that nothing remains (buf + size - cursor == 0)",
